@@ -38,6 +38,14 @@ pub fn ob_nan_rejected(v: [f64; 3]) -> (bool, bool) {
     (got, true)
 }
 
+pub fn ob_sparam_mass(v: [f64; 1]) -> (bool, bool) { (env::sparam_ok(v[0], false), v[0] >= 0.0) }
+/// "must also be an integer": written without float intrinsics (CBMC models `%` only approximately): every f64 >= 2^53
+/// (and +inf, as for IEEE trunc) has no fractional part; below that x is an integer iff it survives the round trip via u64
+pub fn ob_sparam_axle(v: [f64; 1]) -> (bool, bool) {
+    let x = v[0];
+    (env::sparam_ok(x, true), x >= 0.0 && (x >= 9007199254740992.0 || ((x as u64) as f64) == x))
+}
+
 // ---- slice validators: n <= 3 elements (BOUNDED, never counted as proved)
 pub fn ob_cats(n: usize, v: [f64; 9]) -> (bool, bool) {
     let mut exp = true;
